@@ -21,7 +21,11 @@ HdrDup == { <<Nat2I(1), Neg2I(7), Nat2I(1)>>, <<Nat2I(2), Arr(<<Nat2I(1)>>), Arr
 KeyDupP == { <<Nat2I(1), Nat2I(1), Nat2I(2)>>, <<Nat2I(2), B1, B12>>, <<Nat2I(3), Neg2I(7), Ta>>, <<Nat2I(4), Arr(<<Nat2I(1)>>), Arr(<<Nat2I(2)>>)>>,
             <<Nat2I(4), Arr(<<Nat2I(1)>>), Arr(<<Nat2I(1)>>)>>,          \* the same operations twice: still "duplicate key", not "repeated entry"
             <<Nat2I(5), B1, B12>>, <<Nat2I(0), Nat2I(1), Nat2I(2)>>, <<Neg2I(1), Nat2I(1), B1>>, <<Neg2I(4), B1, B1>>,
-            <<Neg2I(65537), Nat2I(1), Nat2I(2)>>, <<I63max, Nat2I(1), Nat2I(2)>>, <<Ta, Nat2I(1), Nat2I(2)>> }
+            <<Neg2I(65537), Nat2I(1), Nat2I(2)>>, <<I63max, Nat2I(1), Nat2I(2)>>, <<Ta, Nat2I(1), Nat2I(2)>>,
+            (* round 5 of the seeded changes: a repeat detected by "the typed field is already populated" misses a first occurrence
+               that carries the field's default.  Key type 0 (Reserved) is the only default a wire can carry: empty key id /
+               base IV / operations (and empty kid / IV in a header) are rejected before the repeat is reached *)
+            <<Nat2I(1), Nat2I(0), Nat2I(1)>> }
 ClaimDup == { <<Nat2I(1), Ta, Tt>>, <<Nat2I(4), Nat2I(1), F15>>, <<Nat2I(7), B1, B12>>, <<Nat2I(0), Nat2I(1), Nat2I(2)>>,
              <<Nat2I(8), EmptyMap, EmptyMap>>, <<Nat2I(38), Nat2I(1), Nat2I(2)>>, <<Neg2I(260), EmptyMap, Nat2I(1)>>,
              <<Neg2I(65537), Nat2I(1), Nat2I(2)>>, <<N63, Nat2I(1), Nat2I(2)>>, <<Ta, Nat2I(1), Nat2I(2)>> }
@@ -170,8 +174,10 @@ Wire == Wrap(st.pos, MapBytes(st.kind, st.d, st.n, st.i, st.j, st.e1, st.e2))
 DTy == TyAt(st.kind, st.pos)
 InvDecode == st.mode = "decode" => LET r == FromSlice(DTy, "", Wire) IN ~r.ok /\ r.err = "DuplicateMapKey"
 (* control: dropping the second occurrence makes the whole input acceptable, so the duplicate is the only fault *)
+(* (for the key type 0 = Reserved, which a key may not end up with, it is the FIRST occurrence that is dropped) *)
+DropIdx == IF st.kind = "key" /\ st.d[1] = Nat2I(1) /\ st.d[2] = Nat2I(0) THEN st.i ELSE st.j
 Single == LET base == Base(st.kind, st.d) es == Entries(st.kind, st.d, st.n, st.i, st.j) nb == Len(base) IN
-          SelectSeq([k \in 1..Len(es) |-> <<k, es[k]>>], LAMBDA p : p[1] # nb + st.j)
+          SelectSeq([k \in 1..Len(es) |-> <<k, es[k]>>], LAMBDA p : p[1] # nb + DropIdx)
 SingleBytes == Enc(Map([k \in 1..Len(Single) |-> Single[k][2]]))
 InvOnlyFault == st.mode = "decode" => FromSlice(DTy, "", Wrap(st.pos, SingleBytes)).ok
 
